@@ -147,6 +147,7 @@ def run(ctx):
                 reduced = gen.random_subset_with_ends(rng, n, rng.randrange(0, min(n - 2, 10) + 1))
             m = len(reduced)
             knees = sorted(rng.sample(range(m), rng.randrange(0 if rng.random() < 0.1 else 1, min(m, 6) + 1)))      # every knee set: the empty one too
+            tx = tie_tx(rng, pts, list(zip(reduced, reduced[1:])), tx)
             one(ctx, 'add_points_even', pts, reduced, knees, tx, ty, extremes, fam)
         else:
             # markers variant: knees anywhere on the curve, both ends included (zero-length end gaps), and the empty marker list (one gap 0..n-1)
@@ -154,8 +155,24 @@ def run(ctx):
             knees = sorted(rng.sample(range(lo, hi), rng.randrange(0 if rng.random() < 0.1 else 1, min(hi - lo, 6) + 1)))
             if len(knees) >= 2 and rng.random() < 0.12:
                 rng.shuffle(knees)                          # the marker list in another order: right-to-left gaps
+            ks_ = [0] + sorted(knees) + [n - 1]
+            tx = tie_tx(rng, pts, list(zip(ks_, ks_[1:])), tx)
             one(ctx, 'add_points_even_knees', pts, list(range(n)), knees, tx, ty, extremes, fam)
     long_cases(ctx)
+
+
+def tie_tx(rng, pts, segs, tx):
+    """tie-seeking width threshold: in a fifth of the cases tx is chosen so that width/(2*tx) of one of the segments is an integer k, or
+    sits a few 1e-10 above / below it - `ceil` must see the quotient as it is (k, k+1, k), nothing may round it first"""
+    if not segs or rng.random() >= 0.2:
+        return tx
+    l, r = rng.choice(segs)
+    dx = float(np.max(pts[:, 0]) - np.min(pts[:, 0]))
+    w = abs(float(pts[r][0] - pts[l][0])) / dx if dx > 0 else 0.0
+    if w <= 0:
+        return tx
+    k = rng.randrange(1, 7)
+    return float(w / (2.0 * k) * rng.choice([1.0, 1.0 - 3e-10, 1.0 + 3e-10, 1.0 - 2e-12, 1.0 + 2e-12]))
 
 
 def long_cases(ctx):
